@@ -588,6 +588,7 @@ def Bookkeeping.Valid : Bookkeeping → Prop
   | .rootSet cp _ => Gen.checkpointKey <+: cp
   | .rootHdel cp _ => Gen.checkpointKey <+: cp
   | .rootDel cp => Gen.checkpointKey <+: cp
+  | .frontierDel cp => Gen.checkpointKey <+: cp
   | _ => True
 
 /-- **Stand-alone bookkeeping traffic is skipped** by the opposite link: every
@@ -641,5 +642,10 @@ theorem bookkeeping_cmd_quiet (cfg : PCfg) (hf : FOK cfg.filter) (bk : Bookkeepi
     rcases hk with rfl | rfl
     · exact Or.inr hv
     · exact Or.inr (List.IsPrefix.trans hv (List.prefix_append _ _))
+  | frontierDel cp =>
+    refine del_quiet cfg hf _ (Or.inl (by show lower wDel = wDel; decide)) (by simp [Bookkeeping.toCmd]) ?_ pst hi
+    intro k hk
+    have : k = Gen.frontierKey cp := by simpa [Bookkeeping.toCmd] using hk
+    rw [this]; exact Or.inr (List.IsPrefix.trans hv (List.prefix_append _ _))
 
 end GunYu.Bisync
